@@ -451,6 +451,28 @@ def _mbuild(b, r):
     return cids
 
 
+def _is_path(insts, names):
+    """do the computations behind `names` form one simple dependency path (each at most one direct input and one direct
+    consumer inside the set, connected, at least two of them)?"""
+    ds = {}
+    for n in names:
+        ds.setdefault(insts[n].D, insts[n])
+    if len(ds) < 2 or len({it.slug for it in ds.values()}) != len(ds):
+        return False
+    for it in ds.values():
+        # run-argument style only (inputs are resolved before `run` starts), and the input inside the set is one `run` takes
+        if it.cspec['style'] != 'args':
+            return False
+        for idx, (inp, target) in enumerate(it.rel_inputs):
+            if target is not None and target.D in ds and idx not in it.cspec['reads']:
+                return False
+    ups = {d: {t.D for t in it.inputs.values() if t.D in ds} for d, it in ds.items()}
+    downs = {d: {e for e in ds if d in ups[e]} for d in ds}
+    if any(len(u) > 1 for u in ups.values()) or any(len(x) > 1 for x in downs.values()):
+        return False
+    return sum(1 for u in ups.values() if not u) == 1
+
+
 def gen_c07(r, knobs=None):
     """force-heavy histories: Task.force / Chain.force with every flag combination on arbitrary task sets, stores with
     results present or missing, arbitrary later request orders, other chains and processes on the same store."""
@@ -509,14 +531,17 @@ def gen_c07(r, knobs=None):
                     # the same, as two separate calls
                     b.op(op='cforce', cid=cid, tasks=ns[:1], names=ns[:1], recompute=False, delete=False)
                     ns = ns[1:]
-                if faulty and r.random() < 0.35:
-                    # a run fails inside Chain.force(recompute=True): the error comes out, what was not recomputed stays forced
+                if faulty and r.random() < 0.5:
+                    # a run fails inside Chain.force(recompute=True): the error comes out, what was not recomputed stays forced.
+                    # Chain.force recomputes in the iteration order of a set of task objects, i.e. in no reproducible order: only
+                    # closures that are a simple path (every order runs them in dependency order) keep the run replayable
                     insts = b.insts(cid)
                     clos = sorted(b.closure(cid, ns))
-                    b.op(op='armrun', slug=insts[r.choice(clos)].slug, kind=r.choice(['raise_start', 'raise_before_return']), at=0)
-                    b.op(op='cforce', cid=cid, tasks=ns, names=ns, recompute=True, delete=False, fault_expected=True)
-                    b.op(op='disarm')
-                    continue
+                    if _is_path(insts, clos):
+                        b.op(op='armrun', slug=insts[r.choice(clos)].slug, kind=r.choice(['raise_start', 'raise_before_return']), at=0)
+                        b.op(op='cforce', cid=cid, tasks=ns, names=ns, recompute=True, delete=False, fault_expected=True)
+                        b.op(op='disarm')
+                        continue
                 b.op(op='cforce', cid=cid, tasks=ns, names=ns, recompute=r.random() < 0.45 and not faulty,
                      delete=r.random() < 0.4 and b.delete_ok(cid, ns, live), single_as_str=r.random() < 0.5, as_objects=r.random() < 0.25)
             elif t < 0.8:
